@@ -17,5 +17,6 @@ for part in ('main', 'zorro'):
         f, blk = weave.locate_fn(m, spec)
         if f.has_body:
             out[spec.key] = len(rp.find_loops(m, f.sig_end + 1, f.body_end))
+out['__anchors__'] = {k: v for k, v in weave.ANCHOR_CTX_NOW.items() if v}
 json.dump(out, open(os.path.join(V, 'contracts', 'loop_counts.json'), 'w'), indent=1, sort_keys=True)
-print(len(out), 'functions;', sum(1 for v in out.values() if v), 'with loops')
+print(len(out) - 1, 'functions;', len(out['__anchors__']), 'hint anchors with context')
